@@ -523,7 +523,7 @@ def same(a, b):
     if isinstance(a, (set, frozenset)):
         return a == b and sorted(type(x).__name__ for x in a) == sorted(type(x).__name__ for x in b)
     if isinstance(a, dict):
-        if a != b:
+        if a != b or a.keys() != b.keys():   # (Counter equality ignores zero counts)
             return False
         kb = {k: k for k in b}
         return all(type(k) is type(kb[k]) and same(v, b[k]) for k, v in a.items())
@@ -544,6 +544,9 @@ def sort_dicts(o):
     if t == "I":
         return ("I", o[1], [(n, sort_dicts(v)) for n, v in o[2]])
     return o
+
+
+SORT_CLS = [False]   # msgspec emits the fields of slotted attrs classes in its own order: not compared
 
 
 def tcanon(w, t, o, sort_d=False):
@@ -570,7 +573,7 @@ def tcanon(w, t, o, sort_d=False):
     if k in ("cls", "td") and tag == "d":
         ft = {f["name"]: f["ty"] for f in w["classes"][t[1]]["fields"]}
         items = ["(%s %s)" % (terms.canon_sx(a), tcanon(w, ft.get(a[1]) if a[0] == "s" else None, b, sort_d)) for a, b in o[1]]
-        return "(" + " ".join(["d"] + (sorted(items) if sort_d else items)) + ")"
+        return "(" + " ".join(["d"] + (sorted(items) if (sort_d or (SORT_CLS[0] and k == "cls")) else items)) + ")"
     return terms.canon_sx(sort_dicts(o) if sort_d else o)
 
 
@@ -808,20 +811,44 @@ def f34(case):
                  or (case.get("fmt") == "json" and case.get("stage") == "mismatch" and any(v[0] == "b" for v in kt[1]))))
 
 
+def _plain_str_enum(case, kt):
+    return (isinstance(kt, (list, tuple)) and kt[0] == "enum" and case["world"]["enums"][kt[1]]["kind"] == "plain"
+            and any(v[0] == "s" for v in case["world"]["enums"][kt[1]]["vals"]))
+
+
+def _rt_has_plain_str_enum_key(case, t):
+    """inside a TypedDict (unstructured by run-time class on msgspec): a mapping keyed by a plain str-valued Enum"""
+    if isinstance(t, str):
+        return False
+    k = t[0]
+    if k in MAP_KINDS:
+        return _plain_str_enum(case, t[1]) or _rt_has_plain_str_enum_key(case, t[2])
+    if k == "tup":
+        return any(_rt_has_plain_str_enum_key(case, x) for x in t[1])
+    if k == "td":
+        return any(_rt_has_plain_str_enum_key(case, f["ty"]) for f in case["world"]["classes"][t[1]]["fields"])
+    if k in ("enum", "lit", "union", "cls", "counter"):
+        return False
+    return _rt_has_plain_str_enum_key(case, t[1])
+
+
 @framework.finding("msgspec-plain-str-enum-mapping-key")
 def f20(case):
     kt = _key_of_map(case)
-    return (case.get("fmt") == "msgspec" and case.get("minimal") is True and case.get("stage") == "dumps"
-            and case.get("exc") == "TypeError" and isinstance(kt, (list, tuple)) and kt[0] == "enum"
-            and case["world"]["enums"][kt[1]]["kind"] == "plain"
-            and any(v[0] == "s" for v in case["world"]["enums"][kt[1]]["vals"]))
+    t = case.get("ty")
+    if not (case.get("fmt") == "msgspec" and case.get("minimal") is True and case.get("stage") == "dumps"
+            and case.get("exc") == "TypeError"):
+        return False
+    if isinstance(t, (list, tuple)) and t[0] == "td":
+        return _rt_has_plain_str_enum_key(case, t)
+    return _plain_str_enum(case, kt)
 
 
 @framework.finding("counter-keys-not-unstructured")
 def f35(case):
     t = case.get("ty")
     return (isinstance(t, (list, tuple)) and t[0] == "counter" and case.get("minimal") is True
-            and case.get("dict_variant_passes") is True)
+            and (case.get("dict_variant_passes") is True or case.get("stage") == "dumps"))
 
 
 PROVISIONAL = [
@@ -831,11 +858,11 @@ PROVISIONAL = [
      "what": "bool mapping keys: the json converter dumps them as \"true\"/\"false\" and loads applies bool(\"false\") == True (keys collapse); the msgspec converter passes the dict through and the encoder rejects bool keys"},
     {"id": "F19", "property": "C16", "kind": "finding", "signature": "msgspec-deque-passthrough",
      "what": "msgspec converter: deque[T] whose element handler is a pass-through (identity / to_builtins) is handed to msgspec unchanged, which cannot encode deques: dumps raises TypeError"},
-    {"id": "F34", "property": "C16", "kind": "finding", "signature": "json-nonstr-literal-mapping-key",
+    {"id": "F41", "property": "C16", "kind": "finding", "signature": "json-nonstr-literal-mapping-key",
      "what": "json/msgspec converters: a mapping keyed by a Literal with int or bool members comes back with string keys (\"1\", \"true\") that the literal hook rejects (msgspec: the encoder refuses bool keys)"},
     {"id": "F20", "property": "C16", "kind": "finding", "signature": "msgspec-plain-str-enum-mapping-key",
      "what": "msgspec converter: a mapping keyed by a plain Enum with str values whose value type needs a cattrs hook keeps the members as keys, and the msgspec encoder refuses them: dumps raises TypeError"},
-    {"id": "F35", "property": "C16", "kind": "finding", "signature": "counter-keys-not-unstructured",
+    {"id": "F42", "property": "C16", "kind": "finding", "signature": "counter-keys-not-unstructured",
      "what": "Counter[K]: mapping_unstructure_factory takes the key type to be the tuple (K,), so keys are never unstructured (also on a plain Converter): json cannot dump Counter[bytes|date|datetime|plain Enum], pyyaml cannot dump Counter[Enum], a user hook for K is skipped when dumping but applied when loading; dict[K, int] with the same entries works"},
 ]
 
@@ -958,11 +985,12 @@ def one_case(chk, drv, R, w, fmt, mod, cfg, t, x, corr_fail, tag=""):
     if rm.startswith("bad"):
         raise lean.InfraError("driver rejected CODEC: " + rm + " :: " + ty_sx(w, t) + " " + terms.obj_sx(x))
     sort_d = fmt == "yaml"
+    SORT_CLS[0] = fmt == "msgspec"
     if m is None:
         chk.unmodelled += 1
         chk.note("unmodelled")
     else:
-        chk.note("sup:" + m["sup"])
+        chk.note("sup:" + m["sup"], "in-proved-fragment:" + ("1" if m["sup"] == "1" and m.get("frag") == "1" else "0"))
         m_enc = m["enc"] == "1"
         m_st = m["st"]
         m_ok = m_enc and m_st != "err" and m_st != "-"
